@@ -14,6 +14,7 @@ mod c04;
 mod c08;
 mod c09;
 mod c10;
+mod c13;
 mod c14;
 mod c15;
 mod c16;
@@ -81,6 +82,7 @@ fn main() {
                 "C08" => c08::run(&mut ctx),
                 "C09" => c09::run(&mut ctx),
                 "C10" => c10::run(&mut ctx),
+                "C13" => c13::run(&mut ctx),
                 "C14" => c14::run(&mut ctx),
                 "C15" => c15::run(&mut ctx),
                 "C16" => c16::run(&mut ctx),
